@@ -3,6 +3,7 @@ package main
 // grp engine: Groupby (single key / key list) and the grouped Sum/Mean/Count (C04, C05).
 
 import (
+	"math"
 	"time"
 
 	"github.com/kishyassin/goframe/dataframe"
@@ -81,6 +82,9 @@ func genGrp(r *Rng, tier string) *Enc {
 				// cycle deterministically through every numeric width
 				w := allWidths[(i+ci+r.Intn(2))%len(allWidths)]
 				d[i] = scaleNum(w, r.Range(-3, 6))
+				if _, isF64 := w.(float64); isF64 && r.Chance(4) {
+					d[i] = math.NaN() // NaN is a number: it propagates through the group sum AND through the frame-level sum
+				}
 				if _, isF32 := w.(float32); isF32 && r.Chance(30) {
 					d[i] = Pick(r, []float32{0.1, 1.1, 16777.217}) // not short decimals once widened to float64
 				}
